@@ -80,11 +80,14 @@ func verifStubConsume(s *splitConsume, ctx context.Context, cl *kgo.Client) {}
 
 type verifCtl struct{}
 
+// what Start asked the pipeline for
+var verifSpread, verifNoStreams bool
+
 func (verifCtl) In(pipeline.SourceID, string, pipeline.Offsets, []byte, bool, metadata.MetaData) uint64 {
 	return 0
 }
-func (verifCtl) UseSpread()                        {}
-func (verifCtl) DisableStreams()                   {}
+func (verifCtl) UseSpread()                        { verifSpread = true }
+func (verifCtl) DisableStreams()                   { verifNoStreams = true }
 func (verifCtl) SuggestDecoder(decoder.Type)       {}
 func (verifCtl) IncReadOps()                       {}
 func (verifCtl) IncMaxEventSizeExceeded(...string) {}
@@ -99,7 +102,11 @@ func VerifH_C10_topicTable() {
 		topics[i] = names[vf.Choose("topic", 2)]
 	}
 	p := &Plugin{}
+	verifSpread, verifNoStreams = false, false
 	p.Start(&Config{Topics: topics}, &pipeline.InputPluginParams{Controller: verifCtl{}})
+	// kafka records carry no per-source stream: without DisableStreams a "stream" field inside the
+	// records would sort one partition's records into several streams that commit independently
+	vf.Assert(verifNoStreams, "start-disables-streams")
 	// a record of one of the consumed topics
 	topic := topics[vf.Choose("record-topic", n)]
 	part := int32(vf.Int("partition", 0, 65535))
@@ -156,4 +163,70 @@ func VerifH_C10_stopCommitsMarkedOnly() {
 	}
 	vf.Assert(ok, "stop-commits-marked-offsets-only")
 	vf.Reach("stopped")
+}
+
+// ---- the partition consumer: every fetched record is handed over, tagged with its own coordinates ----
+
+type verifInCall struct {
+	src pipeline.SourceID
+	off int64
+	val string
+}
+
+type verifRecCtl struct {
+	verifCtl
+	calls *[]verifInCall
+}
+
+func (c verifRecCtl) In(id pipeline.SourceID, _ string, off pipeline.Offsets, data []byte, _ bool, _ metadata.MetaData) uint64 {
+	*c.calls = append(*c.calls, verifInCall{id, pipeline.VerifOffsetsCurrent(off), string(data)})
+	return uint64(len(*c.calls))
+}
+
+// C10.H5: pconsumer.consume hands every record of every fetch to the pipeline, in order, each tagged with
+// its own partition / offset / leader epoch (a fetch may span a leader change and may start at offset 0);
+// committing any of them marks exactly its own offset + 1 with its own epoch.
+func VerifH_C10_consumeLoop() {
+	var calls []verifInCall
+	pc := &pconsumer{topic: "t", partition: 3, topicID: 1, quit: make(chan struct{}), done: make(chan struct{}),
+		fetches: make(chan kgo.FetchTopicPartition, 2), controller: verifRecCtl{calls: &calls}}
+	first := int64(vf.Choose("first-offset", 2)) * 10 // 0 or 10
+	n := 1 + vf.Choose("records", vf.Param("K", 3))
+	var recs []*kgo.Record
+	epoch := int32(7)
+	for i := 0; i < n; i++ {
+		if i > 0 && vf.Choose("leader-changed", 2) == 1 {
+			epoch++
+		}
+		recs = append(recs, &kgo.Record{Topic: "t", Partition: 3, Offset: first + int64(i), LeaderEpoch: epoch, Value: []byte{byte('a' + i)}})
+	}
+	// delivered in one or two fetches
+	cut := n
+	if n > 1 && vf.Choose("two-fetches", 2) == 1 {
+		cut = 1 + vf.Choose("cut", n-1)
+	}
+	go pc.consume()
+	pc.fetches <- kgo.FetchTopicPartition{Topic: "t", FetchPartition: kgo.FetchPartition{Partition: 3, Records: recs[:cut]}}
+	if cut < n {
+		pc.fetches <- kgo.FetchTopicPartition{Topic: "t", FetchPartition: kgo.FetchPartition{Partition: 3, Records: recs[cut:]}}
+	}
+	vf.Quiesce(0)
+	close(pc.quit)
+	if vf.Param("twin", 0) == 1 {
+		vf.Assert(len(calls) != n, "every-fetched-record-handed-over-once-in-order")
+		return
+	}
+	vf.Assert(len(calls) == n, "every-fetched-record-handed-over-once-in-order")
+	if len(calls) != n {
+		return
+	}
+	p := &Plugin{config: &Config{Topics: []string{"x", "t"}}}
+	for i, c := range calls {
+		vf.Assert(c.val == string(recs[i].Value), "every-fetched-record-handed-over-once-in-order")
+		verifMarked, verifMarkCalls = nil, 0
+		p.Commit(&pipeline.Event{SourceID: c.src, Offset: c.off})
+		e, ok := verifMarked["t"][3]
+		vf.Assert(ok && len(verifMarked) == 1 && e.Offset == recs[i].Offset+1 && e.Epoch == recs[i].LeaderEpoch, "commit-marks-the-records-own-offset-and-epoch")
+	}
+	vf.Reach("fetches-consumed")
 }
